@@ -144,6 +144,25 @@ def _mk(engine, shape, k, letters=None, qshape=None, inf_radius=False, budget=20
                             + f", letters {letters or 'free Unicode'}")
 
 
+def _probe_scale(engine):
+    def run():
+        import pyrepseq
+        seqs, planted = hc.scale_case()
+        calls = []
+
+        def dist(a, b):
+            calls.append(1)
+            if a == b:
+                return 0.0
+            return 0.25 if a[0] == "A" or b[0] == "A" else 2.5        # below the radius for codes starting with A, above it otherwise
+        got = getattr(pyrepseq, engine)(list(seqs), max_edits=1, custom_distance=dist, max_custom_distance=1.0)
+        want = {(i, j, 0.25) for i, j, _ in hc.scale_self_expected(planted) if seqs[i][0] == "A" or seqs[j][0] == "A"}
+        got = [(int(a), int(b), float(c)) for a, b, c in got]
+        ok = len(got) == len(set(got)) and set(got) == want
+        return ok, f"[scale probe] {engine} with a custom distance on {len(seqs)} sequences: got {sorted(got)[:14]} want {sorted(want)}"
+    return run
+
+
 def conditions(tier):
     out = []
     for inf in (False, True):
@@ -167,4 +186,8 @@ def conditions(tier):
             out.append(_mk("kdtree", (2, 2, 1), 2, letters="ACY", inf_radius=inf, budget=1800))
             out.append(_mk("hash_based", (2, 2), 1, letters="AC", inf_radius=inf, budget=1800))
             out.append(_mk("hash_based", (2, 1), 2, letters="ACD", inf_radius=inf, budget=1800))
+    for engine in ("nearest_neighbor", "kdtree", "hash_based"):
+        out.append(hc.probe_condition(f"C14/probe/{engine}/custom-distance/70000-sequences",
+                                      f"{engine} with a custom distance (0.25 or 2.5 by first letter, radius 1.0) on 70 006 sequences with six planted pairs",
+                                      _probe_scale(engine)))
     return out
